@@ -72,7 +72,8 @@ type scenario struct {
 	Cfg   hsreal.AbsCfg `json:"cfg"`
 	Exp   exp           `json:"exp"`
 	Terms []term        `json:"terms"`
-	BName string        `json:"b_name"` // concrete member for usable method "B"
+	BName string        `json:"b_name"`          // concrete member for usable method "B"
+	Alias string        `json:"alias,omitempty"` // alias-name sweep: which end lists both spellings of the token method
 }
 
 type row struct {
@@ -175,13 +176,13 @@ func cfgKey(a hsreal.AbsCfg) string {
 
 // generate runs the Gen_Handshake partitions in parallel and groups the printed
 // terminal states by configuration.
-func generate(c *core.Ctx, cfgFile, rowsFile string, parts [][2]string) []*scenario {
+func generate(c *core.Ctx, cfgFile, rowsFile string, parts [][2]string, encLevel string) []*scenario {
 	var mu sync.Mutex
 	by := map[string]*scenario{}
 	var order []string
 	core.ParallelFor(len(parts), 8, func(i int) {
 		// many TLC processes run side by side: keep each JVM small (its default heap is 1/4 of the RAM)
-		env := []string{"C10_CAUTH=" + parts[i][0], "C10_SAUTH=" + parts[i][1], "C10_ROWS=" + rowsFile,
+		env := []string{"C10_CAUTH=" + parts[i][0], "C10_SAUTH=" + parts[i][1], "C10_ENC=" + encLevel, "C10_ROWS=" + rowsFile,
 			"JAVA_TOOL_OPTIONS=-Xmx2g"}
 		raws := kit.Generate(c, "Gen_Handshake.tla", cfgFile, tlc.Options{Env: env, Timeout: 40 * time.Minute})
 		for _, r := range raws {
@@ -361,6 +362,10 @@ func signature(sc *scenario, d *diff) map[string]string {
 	if sc.BName != "TOKEN" {
 		sig["b_name"] = sc.BName
 	}
+	if sc.Alias != "" {
+		// the alias-name sweep: the level pair is irrelevant to which NAME is reported
+		sig = map[string]string{"spec": "Handshake", "inv": d.Inv, "class": d.Class, "alias": sc.Alias}
+	}
 	return sig
 }
 
@@ -481,7 +486,7 @@ func run(c *core.Ctx) {
 		go func(lv string) {
 			defer wg.Done()
 			kit.ModelCheck(c, "Gen_Handshake.tla", mcCfg, tlc.Options{Workers: 4, Timeout: 40 * time.Minute,
-				Env: []string{"C10_CAUTH=" + lv, "C10_SAUTH=*", "C10_ROWS=" + filepath.Join(c.Tmp, "c10-rows.ndjson"),
+				Env: []string{"C10_CAUTH=" + lv, "C10_SAUTH=*", "C10_ENC=*", "C10_ROWS=" + filepath.Join(c.Tmp, "c10-rows.ndjson"),
 					"JAVA_TOOL_OPTIONS=-Xmx4g"}})
 		}(lv)
 	}
@@ -498,7 +503,7 @@ func run(c *core.Ctx) {
 				parts = append(parts, [2]string{a, b})
 			}
 		}
-		scs = generate(c, "Gen_C10_part.cfg", rowsFile, parts)
+		scs = generate(c, "Gen_C10_part.cfg", rowsFile, parts, "*")
 		c.Set("exhaustive", true)
 	} else {
 		rows := pairwiseRows(c)
@@ -517,7 +522,7 @@ func run(c *core.Ctx) {
 		for _, a := range levels {
 			parts = append(parts, [2]string{a, "*"})
 		}
-		scs = generate(c, "Gen_C10_rows.cfg", rowsFile, parts)
+		scs = generate(c, "Gen_C10_rows.cfg", rowsFile, parts, "*")
 	}
 	if len(scs) == 0 {
 		c.Broken("no configuration was generated")
@@ -540,9 +545,45 @@ func run(c *core.Ctx) {
 		}
 	}
 	c.Set("idtokens_configurations", len(extra))
+	// 4. alias names: TOKEN and IDTOKENS are two NAMES with one wire bit. One end
+	// lists both spellings (either order), the other end one of them; the model
+	// treats them as the distinct usable methods B and C, so both ends must report
+	// the one the server's order selects. All 16 authentication level pairs,
+	// encryption OPTIONAL, AES on both ends, both assignments of the spellings.
+	aliasFile := filepath.Join(c.Tmp, "c10-alias-rows.ndjson")
+	{
+		var sb strings.Builder
+		both := [][]string{{"B", "C"}, {"C", "B"}}
+		one := [][]string{{"B"}, {"C"}}
+		for _, bb := range both {
+			for _, o := range one {
+				for _, r := range []row{{CM: bb, SM: o}, {CM: o, SM: bb}} {
+					r.CX, r.SX, r.Cmd = []string{"AES"}, []string{"AES"}, true
+					b, _ := json.Marshal(r)
+					sb.Write(b)
+					sb.WriteByte('\n')
+				}
+			}
+		}
+		_ = os.WriteFile(aliasFile, []byte(sb.String()), 0o644)
+	}
+	var alias []*scenario
+	for _, sc := range generate(c, "Gen_C10_rows.cfg", aliasFile, [][2]string{{"*", "*"}}, "OPTIONAL") {
+		for _, bn := range []string{"TOKEN", "IDTOKENS"} {
+			cp := *sc
+			cp.BName = bn
+			cp.Alias = "client-lists-both"
+			if len(sc.Cfg.S.Methods) == 2 {
+				cp.Alias = "server-lists-both"
+			}
+			alias = append(alias, &cp)
+		}
+	}
+	c.Set("alias_name_configurations", len(alias))
 	st := &stats{bySig: map[string]int{}}
 	replay(c, env, scs, st)
 	replay(c, env, extra, st)
+	replay(c, env, alias, st)
 	// code -> spec: a seeded sample of the configurations is run once more with
 	// the hook events of stream / security collected, and every endpoint's life
 	// cycle is validated by TLC against ConnLifecycle_Trace (HandshakeOK per
